@@ -266,14 +266,21 @@ pub fn isolation(rng: &mut Rng) -> Result<usize, (String, String)> {
     Ok(3)
 }
 
-/// Two configurations that differ only in the ASCII case of a case-sensitive selector part (class, id, attribute value)
+/// Two configurations whose selectors differ minimally (one ASCII-case flip, one appended / dropped / substituted character)
+/// in a class, id or attribute value
 /// must keep behaving as two different configurations whatever was parsed or run before in this process or
 /// concurrently on other threads (a process-wide cache keyed too coarsely would merge them).
 pub fn twins(rng: &mut Rng) -> Result<(), (String, String)> {
     let len = rng.range(2, 7);
     let t: String = (0..len).map(|_| (b'a' + rng.below(26) as u8) as char).collect();
     let k = rng.below(len);
-    let t2: String = t.chars().enumerate().map(|(i, c)| if i == k { c.to_ascii_uppercase() } else { c }).collect();
+    // the twin differs by one ASCII-case flip, an appended character, a dropped last character or one substituted character
+    let t2: String = match rng.below(4) {
+        0 | 1 => t.chars().enumerate().map(|(i, c)| if i == k { c.to_ascii_uppercase() } else { c }).collect(),
+        2 => format!("{t}x"),
+        _ if len > 2 && rng.bool() => t[..len - 1].to_string(),
+        _ => t.chars().enumerate().map(|(i, c)| if i == k { if c == 'q' { 'r' } else { 'q' } } else { c }).collect(),
+    };
     let kind = rng.below(3);
     let sel = |v: &str| match kind {
         0 => format!(".{v}"),
